@@ -14,7 +14,9 @@ def run(ctx, proofs_ok):
     r = 25 if q else 200
     plan = []
     for widen in ((0, 25) if q else (0, 10, 30, 60)):
-        for sc in ("incr-fresh", "push-pop", "push-vs-empty", "create-delete", "tcp-incr"):
+        for sc in ("incr-fresh", "push-pop", "push-vs-empty", "create-delete", "tcp-incr", "expired-recreate"):
             rounds = r if widen < 50 else max(10, r // 4)
+            if sc == "expired-recreate":
+                rounds *= 6
             plan.append((sc, rounds, widen))
     conc.run_scenarios(ctx, plan, "single-key scenarios (embedded API and TCP)")
